@@ -57,6 +57,7 @@ fn run_sc(sc: &Sc) -> Res {
     // the wake-up action, performed while the receiver is (normally) blocked
     let t1 = now_ns();
     let mut wake_deadline: Option<u128> = None;
+    let mut far_send_t: Option<u128> = None;
     match sc.wake {
         Wake::Plain => { s.send(200); labels.push(format!("S:200:{}", now_ns())); }
         Wake::Prio => { s.send_with_priority(200); labels.push(format!("P:200:{}", now_ns())); }
@@ -88,6 +89,7 @@ fn run_sc(sc: &Sc) -> Res {
                 labels.push(format!("C:{}:{}:{}", dl, seq, now_ns()));
                 std::thread::sleep(Duration::from_millis(60));
             }
+            far_send_t = Some(now_ns());
             s.send(200);
             labels.push(format!("S:200:{}", now_ns()));
         }
@@ -118,7 +120,9 @@ fn run_sc(sc: &Sc) -> Res {
         Wake::Nothing => {}
         _ => instants.push(t1b),
     }
-    let t1 = if let Wake::FarCancelThenPlain(_) = sc.wake { t1b } else { t1 };
+    // (the plain event of FarCancelThenPlain exists from the instant BEFORE its send() call: the
+    // receiver may well be back before the sending thread has read the clock again)
+    let t1 = if let Wake::FarCancelThenPlain(_) = sc.wake { far_send_t.unwrap_or(t1b) } else { t1 };
     if let Some(u) = until { instants.push(u) }
     let mut discarded = false;
     for i in 0..instants.len() {
